@@ -67,6 +67,8 @@ class Gen:
                 out.append(["set", g, r.below(50)])
             elif kind == "inc":
                 out.append(["inc", g])
+            elif kind == "assign":
+                out.append(["assign", g, r.below(50)])
             elif kind == "chk":
                 out.append(["chk", self.site()])
             elif kind == "probe":
@@ -121,7 +123,7 @@ class Gen:
         return out
 
 
-KINDS_W = [("set", 10), ("inc", 10), ("chk", 12), ("probe", 10), ("call", 12), ("tryfin", 8), ("trycatch", 6),
+KINDS_W = [("set", 10), ("inc", 10), ("assign", 6), ("chk", 12), ("probe", 10), ("call", 12), ("tryfin", 8), ("trycatch", 6),
            ("fiber", 6), ("fiber2", 4), ("method", 5), ("classcrash", 3), ("deffn", 5), ("callfn", 7), ("defclass", 4),
            ("useclass", 5), ("deffiber", 4), ("resume", 7), ("import", 6), ("modcall", 6), ("throw", 5), ("poke", 3), ("corelib", 6), ("shadow", 4), ("useshadow", 6), ("capcrash", 5), ("callcap", 7)]
 
@@ -157,6 +159,9 @@ def render_snip(stmts, uid, stale=()):
             out.append("var g%d = %d;" % (st[1], st[2]))
         elif k == "inc":
             out.append("g%d = g%d + 1;" % (st[1], st[1]))
+        elif k == "assign":
+            # plain assignment (no `var`): a NameError when the global was never declared, and then it must stay undeclared
+            out.append("g%d = %d;" % (st[1], st[2]))
         elif k == "chk":
             out.append('print(("chk", "%s"));' % st[1])
         elif k == "probe":
@@ -236,7 +241,7 @@ def render_snip(stmts, uid, stale=()):
         elif k == "capcrash":
             # a block-local variable captured by a closure that is stored in a global; the run may die while the
             # variable is still an open captured variable on the (then abandoned) top-level fiber's stack
-            out.append("var pc%d = nil; { var cl = %d; pc%d = || { cl = cl + 1; return cl; }; print((\"chk\", \"%s\")); print((\"ev\", %d, pc%d())); }" % (
+            out.append("var pc%d = nil; { var cl = [%d]; pc%d = || { cl = [cl[0] + 1]; return cl[0]; }; print((\"chk\", \"%s\")); print((\"ev\", %d, pc%d())); }" % (
                 st[1], 40 + st[1], st[1], st[2], st[3], st[1]))
         elif k == "callcap":
             out.append('print(("ev", %d, pc%d()));' % (st[2], st[1]))
@@ -248,7 +253,8 @@ def render_snip(stmts, uid, stale=()):
             # touch every fiber object an earlier (possibly crashed) snippet left in a global: any outcome is
             # acceptable except a crash of the host
             for nm in stale:
-                out.append("try { %s.call(); } catch e { }" % nm)
+                out.append('try { print(("ev", %d, "%s", %s.has_finished())); %s.call(); print(("ev", %d, "%s", "callable")); } catch e { print(("ev", %d, "%s", type(e))); }' % (
+                    st[1], nm, nm, nm, st[1], nm, st[1], nm))
             out.append('print(("ev", %d, "poked"));' % st[1])
         else:
             raise ValueError(k)
@@ -260,8 +266,26 @@ class Crash(Exception):
         self.needle = needle
 
 
+def stale_names(ir):
+    """per snippet index: the one-shot fiber globals earlier snippets (since the last reset) may have left behind"""
+    out = {}
+    stale = []
+    for i, item in enumerate(ir["session"]):
+        if item[0] == "reset":
+            stale = []
+        elif item[0] == "snip":
+            out[i] = stale[-4:]
+            for j, stt in enumerate(item[1]):
+                if stt[0] == "fiber":
+                    stale.append("fb%d_%d" % (i, j))
+                elif stt[0] == "fiber2":
+                    stale += ["fi%d_%d" % (i, j), "fo%d_%d" % (i, j)]
+    return out
+
+
 def model(ir, faults):
     sess = ir["session"]
+    stale_by_snippet = stale_names(ir)
     occ = {}
     fired = []
     probes = Stats()
@@ -272,7 +296,7 @@ def model(ir, faults):
 
     def fresh():
         st.clear()
-        st.update(G={}, funcs={}, classes={}, fibers={}, names=set(), mods={}, shadows={}, caps={})
+        st.update(G={}, funcs={}, classes={}, fibers={}, names=set(), mods={}, shadows={}, caps={}, oneshot=set())
 
     fresh()
 
@@ -292,7 +316,7 @@ def model(ir, faults):
             raise Crash("NameError")
         return st["G"][g]
 
-    for item in sess:
+    for si, item in enumerate(sess):
         if item[0] == "reset":
             fresh()
             snap.clear()
@@ -307,12 +331,15 @@ def model(ir, faults):
         ev = []
         G = st["G"]
         try:
-            for stt in item[1]:
+            for sj, stt in enumerate(item[1]):
                 k = stt[0]
                 if k == "set":
                     G[stt[1]] = stt[2]
                 elif k == "inc":
                     G[stt[1]] = getg(stt[1]) + 1
+                elif k == "assign":
+                    getg(stt[1])
+                    G[stt[1]] = stt[2]
                 elif k == "chk":
                     chk(stt[1], "top")
                 elif k == "probe":
@@ -340,6 +367,7 @@ def model(ir, faults):
                     ev.append([num(stt[1]), num(9)])
                 elif k == "fiber":
                     g, s1, s2, eid = stt[1], stt[2], stt[3], stt[4]
+                    st["oneshot"].add("fb%d_%d" % (si, sj))
                     G[g] = getg(g, "fiber") + 1
                     chk(s1, "fiber")
                     ev.append([num(eid), num(5)])
@@ -348,6 +376,8 @@ def model(ir, faults):
                     ev.append([num(eid), num(6)])
                 elif k == "fiber2":
                     g, s1, eid = stt[1], stt[2], stt[3]
+                    st["oneshot"].add("fi%d_%d" % (si, sj))
+                    st["oneshot"].add("fo%d_%d" % (si, sj))
                     G[g] = getg(g, "nested_fiber") + 1
                     chk(s1, "nested_fiber")
                     G[g] = getg(g, "nested_fiber") + 1
@@ -386,7 +416,8 @@ def model(ir, faults):
                         raise Crash("NameError")
                     f = st["fibers"][stt[1]]
                     if f["poisoned"]:
-                        taint.add("open:use-of-fiber-that-was-active-when-a-snippet-failed")
+                        # it was on the chain of callers of a run that failed: abandoned, i.e. finished
+                        probes.inc("abandoned_fiber_called_later")
                         raise Crash("RuntimeError")
                     a = stt[1] % NG
                     if a not in G:
@@ -425,6 +456,15 @@ def model(ir, faults):
                     probes.inc("crash_at:throw_%s_depth_%d" % (how, d))
                     raise Crash("u%d" % eid)
                 elif k == "poke":
+                    # every one-shot fiber an earlier snippet left behind has either run to completion or was on the
+                    # chain of callers of a run that failed: in both cases it is finished and calling it is an error
+                    for nm in stale_by_snippet.get(si, []):
+                        if nm in st["oneshot"]:
+                            probes.inc("stale_fiber_probed")
+                            ev.append([num(stt[1]), s(nm), {"b": True}])
+                            ev.append([num(stt[1]), s(nm), cls("RuntimeError")])
+                        else:
+                            ev.append([num(stt[1]), s(nm), cls("NameError")])
                     ev.append([num(stt[1]), s("poked")])
                 elif k == "shadow":
                     st["shadows"][stt[1]] = stt[2]
@@ -467,20 +507,14 @@ def model(ir, faults):
 
 def programs_of(ir):
     progs = []
-    stale = []       # fiber objects earlier snippets may have left behind in globals (since the last reset)
+    stale = stale_names(ir)
     for i, item in enumerate(ir["session"]):
         if item[0] == "reset":
             progs.append({"kind": "reset"})
-            stale = []
         elif item[0] == "bad":
             progs.append({"kind": "snippet", "source": BAD[item[1]]})
         else:
-            progs.append({"kind": "snippet", "source": render_snip(item[1], i, stale[-4:])})
-            for j, stt in enumerate(item[1]):
-                if stt[0] == "fiber":
-                    stale.append("fb%d_%d" % (i, j))
-                elif stt[0] == "fiber2":
-                    stale += ["fi%d_%d" % (i, j), "fo%d_%d" % (i, j)]
+            progs.append({"kind": "snippet", "source": render_snip(item[1], i, stale.get(i, []))})
     fs = {"sm%s" % m: {"source": module_source(int(m), site), "reads": []} for m, site in ir["mod_sites"].items()}
     return progs, fs
 
@@ -533,12 +567,13 @@ class C15:
     COMPONENTS = {"real": ["yarel compiler", "VM interpret/execute/runtime_error/reset_stack/reset on ONE Vm per session",
                            "module system (imports persist across snippets)", "fibers persisting across snippets"],
                   "stub": ["fault-point native (crash points)", "module loader serving generated sources"]}
-    ASSUMPTIONS = ["behaviour of fiber objects that were running/waiting when a snippet failed, and of re-importing a module whose body failed, is left open by the property: runs that touch them are executed (no crash allowed) but not compared (counted as tainted)",
+    ASSUMPTIONS = ["fibers that were running or waiting (on the chain of callers) when a snippet failed are finished afterwards (implementation-confirmed since fix 5f57364; before it the waiting ones were left neither finished nor callable)",
+                   "re-importing a module whose body failed is left open by the property: runs that do it are executed (no crash allowed) but not compared (counted as tainted)",
                    "error message text is compared only for containment of the thrown value / error class"]
     MAX_ENUM = 30
 
     def configs(self, tier):
-        return ["checked", "release"]
+        return ["checked", "release", "checked+hooks"]
 
     def plan(self, tier):
         return 2500 if tier == "quick" else 120000
@@ -630,10 +665,28 @@ class C15:
                 res["violation"] = {"class": po[0], "msg": "[checked] " + po[1]}
             return res
         last_reset = max([i for i, it in enumerate(ir["session"]) if it[0] == "reset"], default=None)
-        for config in ("checked", "release"):
-            h = ctx.run(config, sc)
+        runs = [("checked", None), ("release", None)]
+        if key % 4 == 0 or sc.get("force_gc_slice"):
+            # a slice of the plans also runs with collect-at-every-allocation + quarantine: whatever a later snippet
+            # can still reach (through globals, closures, fibers, modules) must have survived the failed run
+            runs.append(("checked+hooks", {"gc": {"mode": "always", "quarantine": True}}))
+        for config, cfg in runs:
+            h = ctx.run(config, dict(sc, config=cfg) if cfg else sc)
             stats.inc("executions")
             v = compare(exp, h)
+            if v is None and cfg:
+                gc = h.get("gc") or {}
+                stats.inc("gc_slice_runs")
+                if gc.get("uar_count", 0) > 0:
+                    v = {"class": "use-after-reclaim", "msg": "%d use(s) of objects reclaimed although a later snippet could still reach them; first: %s" % (
+                        gc["uar_count"], json.dumps(gc.get("uar", [])[:2]))}
+            if cfg:
+                if v:
+                    v["config"] = config
+                    v["msg"] = "[%s] %s" % (config, v["msg"])
+                    res["violation"] = v
+                    return res
+                continue
             if v is None and last_reset is not None and last_reset < len(progs) - 1:
                 # metamorphic: after a reset the interpreter must be indistinguishable from a new one
                 stats.inc("metamorphic_suffix_replays")
